@@ -30,6 +30,17 @@ _SHAPES = [(1, 1), (1, 2), (2, 1), (1, 3), (3, 1), (1, 5), (5, 1), (2, 2), (2, 3
 
 def gen_problem(rng, tier):
     h, w = rng.choice(_SHAPES)
+    return _gen(rng, h, w)
+
+
+def extra_program_problems(rng):
+    """Larger boards for the program correspondence only (nothing is enumerated there): one non-square medium board and two
+    with more than 256 cells (a tall and a wide one), stones placed like on the small boards."""
+    from . import _loop
+    return [_gen(rng, h, w) for h, w in _loop.big_shapes(rng)]
+
+
+def _gen(rng, h, w):
     pb = [[0] * w for _ in range(h)]
     mode = rng.random()
     if mode < 0.5:
